@@ -54,8 +54,10 @@ class QsaControlTN(TensorNetwork):
             d *= x
         return tn
 
-    def qsa_ctrl_foreign_map_write(self, tid):
-        pass
+    def qsa_ctrl_exp_drop(self, tags):
+        # C01 exp-drop control: contracts extracted tensors, forgets self.exponent
+        tn, ts = self.partition_tensors(tags)
+        return tensor_contract(*ts)
 
 
 def qsa_ctrl_map_writer(tn, tid):
